@@ -125,10 +125,10 @@ def _rulefile(ctx):
     fmt = mgr.methods.get('_filenameify')
     parse = mgr.methods.get('get_rule')
     ctx.require(fmt is not None and parse is not None,
-                'RuleMgr._filenameify / get_rule')
+                'RuleMgr._filenameify / get_rule', rule='C15.1')
     templates = {n: fold(index, mod, e) for n, e in mod.consts.items()
                  if n.endswith('_FILE_PATTERN')}
-    ctx.require(len(templates) >= 3, 'file-name templates')
+    ctx.require(len(templates) >= 3, 'file-name templates', rule='C15.1')
     tags = {}
     for tname, template in sorted(templates.items()):
         kind = tname.replace('_FILE_PATTERN', '').strip('_')
@@ -145,7 +145,7 @@ def _rulefile(ctx):
                  if isinstance(s, ast.Call) and K.is_meth(s, 'format') and
                  (N.txt(K.recv(s)) == tname or
                   tname in fdefs.get(N.txt(K.recv(s)), []))]
-        ctx.require(len(calls) == 1, 'format call of %s' % tname)
+        ctx.require(len(calls) == 1, 'format call of %s' % tname, rule='C15.1')
         call = calls[0]
         kws = [k.arg for k in call.keywords]
         ctx.ob('C15.1', fmt, call, sorted(kws) == sorted(set(fields)),
@@ -159,7 +159,7 @@ def _rulefile(ctx):
         rname = tname.replace('_PATTERN', '_RE')
         rexpr = mod.consts.get(rname)
         ctx.require(rexpr is not None and isinstance(rexpr, ast.Call),
-                    'regex %s' % rname)
+                    'regex %s' % rname, rule='C15.1')
         try:
             pattern = fold(index, mod, rexpr.args[0])
         except (Unfoldable, KeyError, IndexError, ValueError) as err:
@@ -212,7 +212,7 @@ def _rulefile(ctx):
                 pass
         # the `if match:` block following the match of this regex
         blocks = _match_blocks(parse, rname)
-        ctx.require(blocks, 'parser branch of %s' % rname)
+        ctx.require(blocks, 'parser branch of %s' % rname, rule='C15.1')
         for blk in blocks:
             # the parsed fields: whatever local holds <match>.groupdict()
             dnames = set(
@@ -417,14 +417,14 @@ def _unique(ctx):
     gen = mod.functions.get('gen_uniqueid')
     fmt = mod.functions.get('_fmt_unique_name')
     ctx.require(gen is not None and fmt is not None,
-                'appcfg.gen_uniqueid / _fmt_unique_name')
+                'appcfg.gen_uniqueid / _fmt_unique_name', rule='C15.2')
     bits = None
     alphabet = None
     enc = [s for s in K.walk_no_nested(gen.node)
            if isinstance(s, ast.Call) and
            K.callee_text(s).endswith('to_base_n')]
     ctx.require(len(enc) == 1 and enc[0].args, 'to_base_n call of '
-                                               'gen_uniqueid')
+                                               'gen_uniqueid', rule='C15.2')
     alpha_expr = K.kwarg(enc[0], 'alphabet')
     if alpha_expr is not None:
         alphabet = try_fold(index, mod, K.rexpr(gen, alpha_expr))
@@ -455,10 +455,11 @@ def _unique(ctx):
             val = try_fold(index, mod, sub.value)
             if isinstance(val, int) and val > 0 and (val & (val + 1)) == 0:
                 bits = min(bits or 10 ** 9, val.bit_length())
-    ctx.require(bits and alphabet, 'mask bits and alphabet of gen_uniqueid')
+    ctx.require(bits and alphabet, 'mask bits and alphabet of gen_uniqueid',
+        rule='C15.2')
     rets = [s for s in K.walk_no_nested(gen.node)
             if isinstance(s, ast.Return)]
-    ctx.require(rets, 'return of gen_uniqueid')
+    ctx.require(rets, 'return of gen_uniqueid', rule='C15.2')
     width = None
     for ret in rets:
         _tmpl, widths = _width_of(ret.value, index, mod, gen)
@@ -536,7 +537,8 @@ def _unique(ctx):
     utils = index.module(UTILS)
     tb = utils.functions.get('to_base_n')
     fb = utils.functions.get('from_base_n')
-    ctx.require(tb is not None and fb is not None, 'to_base_n/from_base_n')
+    ctx.require(tb is not None and fb is not None, 'to_base_n/from_base_n',
+        rule='C15.2')
 
     def defaults(func):
         out = {}
@@ -569,7 +571,8 @@ def _events(ctx, modname, base_name, enum_name):
     base = mod.classes.get(base_name)
     enum = mod.classes.get(enum_name)
     ctx.require(base is not None and enum is not None,
-                '%s / %s in %s' % (base_name, enum_name, modname))
+                '%s / %s in %s' % (base_name, enum_name, modname),
+                    rule='C15.3')
     members = {}
     for stmt in enum.node.body:
         if isinstance(stmt, ast.Assign) and isinstance(stmt.value,
@@ -598,7 +601,7 @@ def _events(ctx, modname, base_name, enum_name):
         fd = cls.methods.get('from_data')
         ed = cls.methods.get('event_data')
         ctx.require(fd is not None and ed is not None,
-                    '%s.from_data / event_data' % cls.name)
+                    '%s.from_data / event_data' % cls.name, rule='C15.3')
         ctor = [s for s in K.walk_no_nested(fd.node)
                 if isinstance(s, ast.Call) and N.txt(s.func) == 'cls']
         passed = set()
@@ -725,7 +728,7 @@ def _payload(ctx):
     pay = mod.functions.get('_payload')
     get = mod.functions.get('get_with_metadata')
     ctx.require(pay is not None and get is not None,
-                'zkutils._payload / get_with_metadata')
+                'zkutils._payload / get_with_metadata', rule='C15.4')
     src = ast.unparse(pay.node)
     ctx.ob('C15.4', pay, None,
            'json.dumps(%s' % pay.params()[0] in src and
@@ -831,13 +834,14 @@ def _ldap(ctx):
                        'branch writes (cleared %s, written %s)' % (
                            cls.name, sorted(cleared), sorted(written)),
                        construct='%s empty-list clearing' % cls.name)
-    ctx.require(n_tables >= 10, 'LDAP schema tables (found %d)' % n_tables)
+    ctx.require(n_tables >= 10, 'LDAP schema tables (found %d)' % n_tables,
+        rule='C15.5')
     # the allocation id <-> DN mapping: tenants are nested most-significant
     # last in the DN, so both directions reverse, and both use ':' and '/'
     enc_dn = mod.functions.get('_allocation_dn_parts')
     dec_dn = mod.functions.get('_dn2cellalloc_id')
     ctx.require(enc_dn is not None and dec_dn is not None,
-                '_allocation_dn_parts / _dn2cellalloc_id')
+                '_allocation_dn_parts / _dn2cellalloc_id', rule='C15.5')
 
     def reversals(func):
         count = 0
@@ -871,7 +875,7 @@ def _ldap(ctx):
     conv = {}
     for name in ('_entry_2_dict', '_dict_2_entry'):
         func = mod.functions.get(name)
-        ctx.require(func is not None, name)
+        ctx.require(func is not None, name, rule='C15.5')
         # the tag tests, on whatever the tag local is called: one and the
         # same expression is tested with isinstance(.., list), is bool and
         # is dict
@@ -911,7 +915,7 @@ def _ldap(ctx):
                            'the update diff filters a value only when it '
                            'is None (%s)' % N.txt(cond),
                            construct='diff value filter')
-    ctx.require(filters >= 2, 'value filters of _diff_entries')
+    ctx.require(filters >= 2, 'value filters of _diff_entries', rule='C15.5')
     ctx.ob('C15.5', mod.functions['_dict_2_entry'], None,
            conv['_entry_2_dict'] == conv['_dict_2_entry'] and
            all(conv['_dict_2_entry'].values()),
